@@ -17,18 +17,20 @@ CLAIMED = {
     "C01": {
         "technique": "runtime monitoring: boundary observer + sys.monitoring step clock around parse_script over generated hostile texts; same-text re-parse and cross-hash-seed process comparison",
         "text": ("Every generated source text (exhaustive token strings <= 2 over the full token alphabet, <= 3 over a reduced one, "
-                 "grammar-derived programs with all prefixes/deletions and sampled insertions, character noise, nesting <= 40) must "
+                 "grammar-derived programs with all prefixes/deletions and sampled insertions, character noise incl. Unicode digits, 31 kinds of nesting to depth 40 and in steps to 3000, single tokens to 20000 characters) must "
                  "parse to a node tree or a CklSyntaxError with message, file name and line >= 1, within 20000+3000/char logical "
                  "steps, identically on a second parse and under other hash seeds. Held on ~2*10^5 (quick) / ~3*10^6 (thorough) "
                  "observed parses; says nothing about texts not generated."),
-        "note": _TB + "; nesting deeper than 40 is out of scope; messages/columns are not compared",
+        "note": _TB + "; messages/columns are not compared",
     },
     "C02": {
         "technique": "runtime monitoring: differential oracle over interpreted expressions (flat vs fully parenthesised rendering, chain vs conjunction, reference expression semantics, exact-integer laws, predicate negation), exhaustive over operator pairs",
         "text": ("For every ordered pair of binary operators over 17 typed/ill-typed operand triples, every unary/binary combination, "
                  "every `is [not]` predicate form x 32 pool values, plus random typed trees to depth 5 with tick() probes: the "
                  "interpreter's outcome must agree between the flat and the parenthesised text, with the reference semantics "
-                 "(value, kind, error, short-circuit order), and with exact integer laws up to 10^30. Exploration with an "
+                 "(value, kind, error, short-circuit order), and with exact integer laws up to 10^30. The same trees with "
+                 "literals turned into variables are evaluated as one function body over successive argument tuples and over "
+                 "operands reached by in-place edits; single-operator chains of 65-120 operands stay left-associative. Exploration with an "
                  "exhaustive operator-pair core."),
         "note": _TB + "; % on negative operands only by law; mixed-kind ordering and membership-next-to-arithmetic not asserted",
     },
@@ -77,7 +79,9 @@ CLAIMED.update({
                  "error, method calls along prototype chains) must give the reference evaluator's result and event log; every call "
                  "frame observed must be a fresh child of the function's defining scope, no assignment may create a binding. A "
                  "program counts only if one of 12 wrong semantics (dynamic scoping, global def, shared frames, ...) would change "
-                 "what it observes; every wrong mode must be discriminated in every run."),
+                 "what it observes; every wrong mode must be discriminated in every run. Metamorphic shard in non-legacy mode: "
+                 "whatever names the requirer defines or has in scope where `require` runs, module functions return what they "
+                 "return without them."),
         "note": _TB + "; the reference evaluator (lib/cklref/refeval.py) is the oracle; loop variables are outside this property",
     },
     "C04": {
@@ -96,7 +100,9 @@ CLAIMED.update({
                  "[1.0], sets, maps, NULL) and runtime errors at every statement position, several catch clauses, raising catch "
                  "expressions, raising handlers and finally parts, exits by return/break/continue through finally: the log must "
                  "show exactly one finally per activation (model-free) and equal the reference log and outcome. Eight wrong "
-                 "semantics must each be discriminated in every run."),
+                 "semantics must each be discriminated in every run. Errors raised inside functions that ~28 library functions "
+                 "and evaluation forms call back, x 12 error values, in both interpreter flavours: matching catch, other "
+                 "catches passed, finally once, value at the host; errors passing through calls holding unrenderable arguments."),
         "note": _TB + "; control statements directly inside a finally part: only exactly-once and containment",
     },
     "C09": {
@@ -110,10 +116,10 @@ CLAIMED.update({
         "note": _TB + "; a channel invisible to audit events, stat wrappers and strace would go unnoticed; get_env/stdin/clock are outside the statement",
     },
     "C10": {
-        "technique": "runtime monitoring: reference session model against the outcome of every interpret call of exhaustively enumerated command histories (one interpreter, two interleaved interpreters, caller-supplied environment) plus a probe sequence",
-        "text": ("All histories of length <= 3 (quick) / <= 4 (thorough) over 13 commands on one interpreter, all histories <= 2 / <= 3 "
+        "technique": "runtime monitoring: reference session model against the outcome of every interpret call of exhaustively enumerated command histories (one interpreter, two interleaved interpreters, caller-supplied environment) plus a probe sequence; the same model against the printed output of the interactive host ckl.repl fed random histories in a child process",
+        "text": ("All histories of length <= 3 (quick) / <= 4 (thorough) over 18 commands on one interpreter, all histories <= 2 / <= 3 "
                  "over two interleaved interpreters, all histories <= 2 with one host environment passed to every call, random "
-                 "histories to length 30; after each, 13 probes (bindings, function, module state, load log). Every call outcome "
+                 "histories to length 30, random histories through the REPL; after each, 19 probes (bindings, function, module state, load log). Every call outcome "
                  "and probe must equal the reference session: definitions before a failure persist, nothing after it exists, "
                  "failed requires leave no residue, interpreters do not see each other."),
         "note": _TB + "; messages are not compared, only value / error value / syntax error",
